@@ -375,6 +375,26 @@ def check_key(res, tr, label, material: RKey, jkey, params, viol, rng, thorough)
                 viol("reload:%s:wrong-password-accepted" % form, "encrypted export loads with password %r" % (bad,), form)
             if b"ENCRYPTED" not in blob and form == "pem-encrypted":
                 viol("persist:pem-encrypted:not-encrypted", "password ignored on export", form)
+            # the same key object exported once more under another password (a password rotation): the second export
+            # belongs to the second password and to no earlier one
+            other = password + "-rotated"
+            res.case(label, form, "second-password")
+            res.fired("password-rotation")
+            try:
+                blob2 = S.persist(jkey, form, other)
+                back2 = S.reload(copy.deepcopy(blob2), form, material.kty, other)
+                if not S.same_private(material, S.material_of(back2)):
+                    viol("reload:%s:second-password:private-material-differs" % form, "export under a second password reloads as another key", form)
+            except Exception as e:
+                viol("reload:%s:second-password:failed" % form, "the export of the same key under a second password does not load with that password: %s: %s" % (
+                    type(e).__name__, str(e)[:100]), form)
+            else:
+                try:
+                    S.reload(copy.deepcopy(blob2), form, material.kty, password)
+                except Exception:
+                    pass
+                else:
+                    viol("reload:%s:second-password:first-password-accepted" % form, "the export under a second password loads with the first one", form)
     # an export is the caller's to scribble on: a later export (and the key) must not notice
     for ename, kw in (("as_dict()", {}), ("as_dict(private=True)", {"private": True}), ("as_dict(private=False)", {"private": False})):
         try:
